@@ -206,10 +206,13 @@ class SumOperator(LinearOperator):
             raise NotImplementedError(
                 "cannot draw from inverse of this operator")
         res = None
-        for op in self._ops:
+        for op, neg in zip(self._ops, self._neg):
             from .simple_linear_operators import NullOperator
             if isinstance(op, NullOperator):
                 continue
+            if neg:
+                raise NotImplementedError(
+                    "cannot draw from a difference of operators")
             tmp = op.draw_sample(from_inverse, device_id)
             res = tmp if res is None else res.unite(tmp)
         return res
